@@ -70,5 +70,14 @@ mk(G,'g14_open_name_first','-',RD,'''            if !dir_entry.file_type()?.is_f
                 continue;
             }
 ''','directory scan looks at the name before the type')
+mk(G,'g15_extend_memcpy','-',RB,'        self.buffer.extend(slice.iter().copied());','''        let former_len = self.buffer.len();
+        self.buffer.resize(former_len + slice.len(), 0u8);
+        let (left_part_of_queue, right_part_of_queue) = self.buffer.as_mut_slices();
+        let num_bytes_before_wrap = left_part_of_queue.len().saturating_sub(former_len);
+        let (before_wrap, after_wrap) = slice.split_at(num_bytes_before_wrap);
+        let left_len = left_part_of_queue.len();
+        left_part_of_queue[left_len - before_wrap.len()..].copy_from_slice(before_wrap);
+        let right_len = right_part_of_queue.len();
+        right_part_of_queue[right_len - after_wrap.len()..].copy_from_slice(after_wrap);''','a CORRECT two-memcpy implementation of extend (the seeded change C05_d is the incorrect one)')
 shutil.rmtree(W, ignore_errors=True)
 subprocess.run(['git','-C','/repo','worktree','prune'],check=True)
